@@ -52,6 +52,7 @@ def run(ctx):
     _get_path(ctx, m)
     _siblings(ctx, m, g)
     _text_chain(ctx, m)
+    filter_bypass(ctx, m, 'C11.D6')
     # `a->b` resolves the reference through the grid's id index: the index must describe the rows currently in the
     # grid after every mutation (clauses shared with C15.D1/D3)
     from . import _grid
@@ -59,10 +60,88 @@ def run(ctx):
     _grid.index_pairing(ctx, meths, 'C11.D7')
     _grid.reindex_shape(ctx, meths, 'C11.D7')
     _grid.lookups(ctx, meths, 'C11.D7')
+    # the function a filter is compiled to stays ITS function: generated names are allocated uniquely and never reused
+    # while a filter is cached (the name-allocation clauses of C13.D1/D2, recorded here as C11.D9)
+    from . import c13
+    c13.run(_Renamed(ctx, 'C13.', 'C11.D9/'))
+
+
+class _Renamed(object):
+    """context proxy that files another property's rule ids under this property"""
+
+    def __init__(self, ctx, old, new):
+        self._ctx, self._old, self._new = ctx, old, new
+        self.model = ctx.model
+
+    def _r(self, rule):
+        return rule.replace(self._old, self._new) if isinstance(rule, str) else rule
+
+    def ob(self, rule, *a, **k):
+        return self._ctx.ob(self._r(rule), *a, **k)
+
+    def violation(self, rule, *a, **k):
+        return self._ctx.violation(self._r(rule), *a, **k)
+
+    def error(self, rule, *a, **k):
+        return self._ctx.error(self._r(rule), *a, **k)
+
+    def note(self, *a, **k):
+        return self._ctx.note(*a, **k)
+
+    def count(self, *a, **k):
+        return self._ctx.count(*a, **k)
+
+    def floor(self, *a, **k):
+        return self._ctx.floor(*a, **k)
+
+    def __getattr__(self, name):
+        return getattr(self._ctx, name)
 
 
 TEXT_REWRITERS = ('split', 'join', 'lower', 'upper', 'replace', 'sub', 'translate', 'casefold', 'title', 'swapcase',
                   'encode', 'format', 'expandtabs')
+
+
+def filter_bypass(ctx, m, rule='C11.D6'):
+    """Every non-empty filter text goes through filter_function (the grammar).  A fast path in Grid.filter that decides by a
+    regular expression on the text must not admit texts the grammar refuses: its language has to be inside the grammar's
+    tag-name language."""
+    try:
+        fn = m.func('grid', 'Grid.filter')
+        g = G.grammar_of(m, MOD)
+    except (AnalysisError, Unsupported) as e:
+        ctx.error(rule, str(e))
+        return
+    fparam = fn.args.args[1].arg
+    binds = [a for a in ast.walk(fn) if isinstance(a, ast.Assign) and isinstance(a.value, (ast.Lambda,))]
+    guards = [t for t in ast.walk(fn) if isinstance(t, ast.If) and isinstance(t.test, ast.Call) and isinstance(t.test.func, ast.Attribute)
+              and t.test.func.attr in ('match', 'fullmatch', 'search') and t.test.args and norm(t.test.args[0]) == fparam]
+    if not guards and not binds:
+        ctx.ob(rule, 'Grid.filter has no path that selects rows without the compiled filter', True, 'hszinc/grid.py:%d' % fn.lineno)
+        return
+    for gd in guards:
+        rc = m.fold('grid', gd.test.func.value)
+        try:
+            pr = L.PyRegex(rc.pattern, rc.flags)
+            lang = pr.full() if gd.test.func.attr == 'fullmatch' else pr.match_lang()
+            name_el = g.get('hs_name') if 'hs_name' in g.env else g.get('hs_id')
+            names = G.ToRx().rx(name_el)
+            w = L.find_not_included(lang, names, max_witnesses=1)
+        except Exception as e:
+            ctx.error(rule, 'Grid.filter fast path `%s`: %s' % (norm(gd.test), e))
+            continue
+        if w:
+            wt = ''.join(chr(c) for c in w[0])
+            ctx.violation(rule, 'hszinc/grid.py::Grid.filter', norm(gd.test),
+                          "grid.filter(%r): the text is not a valid filter (the grammar's tag names start with a lower-case letter), "
+                          "but the fast path `%s` accepts it and selects rows by key instead of raising a parse error" % (wt, norm(gd.test)),
+                          'a fast path of Grid.filter decides on the raw text with a regular expression that admits texts the filter '
+                          'grammar refuses', file='hszinc/grid.py', line=gd.lineno, engine='E3')
+        else:
+            ctx.error(rule, 'Grid.filter has a fast path `%s` inside the tag-name language; its equivalence with the compiled filter '
+                            'is not decided' % norm(gd.test))
+    if binds and not guards:
+        ctx.error(rule, 'Grid.filter builds its own predicate (`%s`); cannot decide' % norm(binds[0])[:60])
 
 
 def _text_chain(ctx, m, rule='C11.D8'):
